@@ -6,8 +6,15 @@
     witnesses, and the LOCAL soundness of the building blocks (every plain
     backward step and every indefinite sweep is a sound over-approximation;
     the targets are complete; one full round of the main loop covers the real
-    predecessor outside the F1 branch) - Proofs/BackstepSound.v. *)
-From BB Require Import Base TM Ref InstrsModel TapeModel ReasonModel ReasonFacts StepSim BackstepSound.
+    predecessor outside the F1 branch) - Proofs/BackstepSound.v; and the
+    GUARDED GLOBAL soundness theorem (Proofs/ReasonSound.v): with the F1
+    branch repaired ([sw_nodrop]), the halt targets taken from the full table
+    size ([halt_box_ok], F2), A0 defined, and - for halt / spin-out only - the
+    decidable run guard [bw_skips_justified] (every configuration pruned by
+    the [blanks] test is identical to one that is or was in the frontier),
+    [Refuted] is sound at every depth.  For erasing the tape no run guard is
+    needed. *)
+From BB Require Import Base TM Ref InstrsModel TapeModel ReasonModel ReasonInstr ReasonFacts StepSim BackstepSound ReasonSound.
 
 (** the property as stated (kept visible; refuted below) *)
 Definition C04_bw_refuted_sound_stmt : Prop :=
@@ -111,3 +118,133 @@ Print Assumptions C04_plain_round_sound.
 Theorem C04_f1_dropped_predecessor_covered : bs_conc (backstep f1_t7 false (zc f1_c6)) f1_c6.
 Proof. exact f1_dropped_predecessor_covered. Qed.
 Print Assumptions C04_f1_dropped_predecessor_covered.
+
+(** ---- the guarded global theorem (Proofs/ReasonSound.v) ---- *)
+
+(** the instrumented loop of Model/ReasonInstr.v (records the configurations
+    pruned by the [blanks] test) computes the model's answer *)
+Theorem C04_cant_reach_i_spec : forall sw comp depth g,
+  fst (fst (cant_reach_i sw comp depth g)) = cant_reach sw comp depth g.
+Proof. exact cant_reach_i_spec. Qed.
+Print Assumptions C04_cant_reach_i_spec.
+
+(** the one-round frontier invariant, plain steps and sweeps combined: if a
+    configuration of the frontier covers the real configuration at time
+    j >= 1 of the run from the blank tape, then the round has a valid step,
+    and if [step_configs] succeeds, an indefinite pull was recorded, or the
+    real configuration at an earlier time j' >= 1 is covered by the next
+    frontier or by a configuration pruned by the [blanks] test *)
+Theorem C04_frontier_round_sound : forall sw comp, sw_nodrop sw = true ->
+  forall cfgs bl vs j c,
+  (1 <= j)%nat -> rcfg comp j c -> covers cfgs c ->
+  get_valid_steps sw cfgs (get_entrypoints comp) = Ok vs ->
+  vs <> [] /\
+  forall cfgs' indefs bl' sk,
+    step_configs_i vs bl = inl (cfgs', indefs, bl', sk) -> round_outcome comp cfgs' indefs sk j.
+Proof. exact frontier_round_sound. Qed.
+Print Assumptions C04_frontier_round_sound.
+
+Theorem C04_bw_halt_refuted_sound : forall sw comp depth s,
+  sw_nodrop sw = true ->
+  halt_box_ok sw comp = true ->
+  to_prog comp (0, 0) <> None ->
+  bw_skips_justified sw comp depth (halt_configs sw) = true ->
+  cant_halt_sw sw comp depth = Ok (BwRefuted s) ->
+  forall n sl, ~ halts_at (to_prog comp) init_config n sl.
+Proof. exact bw_halt_refuted_sound. Qed.
+Print Assumptions C04_bw_halt_refuted_sound.
+
+Theorem C04_bw_blank_refuted_sound : forall sw comp depth s,
+  sw_nodrop sw = true ->
+  cant_blank_sw sw comp depth = Ok (BwRefuted s) ->
+  forall n, ~ erases_at (to_prog comp) init_config n.
+Proof. exact bw_blank_refuted_sound. Qed.
+Print Assumptions C04_bw_blank_refuted_sound.
+
+Theorem C04_bw_spinout_refuted_sound : forall sw comp depth s,
+  sw_nodrop sw = true ->
+  bw_skips_justified sw comp depth zero_reflexive_configs = true ->
+  cant_spin_out_sw sw comp depth = Ok (BwRefuted s) ->
+  forall n, ~ spins_out_at (to_prog comp) init_config n.
+Proof. exact bw_spinout_refuted_sound. Qed.
+Print Assumptions C04_bw_spinout_refuted_sound.
+
+Theorem C04_bw_refuted_sound_guarded : forall sw comp depth s,
+  sw_nodrop sw = true ->
+  (halt_box_ok sw comp = true -> to_prog comp (0, 0) <> None ->
+   bw_skips_justified sw comp depth (halt_configs sw) = true ->
+   cant_halt_sw sw comp depth = Ok (BwRefuted s) ->
+   forall n sl, ~ halts_at (to_prog comp) init_config n sl) /\
+  (cant_blank_sw sw comp depth = Ok (BwRefuted s) ->
+   forall n, ~ erases_at (to_prog comp) init_config n) /\
+  (bw_skips_justified sw comp depth zero_reflexive_configs = true ->
+   cant_spin_out_sw sw comp depth = Ok (BwRefuted s) ->
+   forall n, ~ spins_out_at (to_prog comp) init_config n).
+Proof. exact bw_refuted_sound_guarded. Qed.
+Print Assumptions C04_bw_refuted_sound_guarded.
+
+(** "the pruning never fired" is a sufficient, stronger guard *)
+Theorem C04_no_blank_skip_justified : forall sw comp depth g,
+  bw_no_blank_skip sw comp depth g = true -> bw_skips_justified sw comp depth g = true.
+Proof. exact no_blank_skip_justified. Qed.
+Print Assumptions C04_no_blank_skip_justified.
+
+(** non-vacuity: tables (faithful code with only F1 repaired) that satisfy
+    every guard and are refuted after 12 / 28 / 10 rounds; in the spin-out
+    example the pruning DOES fire and is justified *)
+Theorem C04_guards_nonvacuous :
+  (sw_nodrop sw_f2 = true /\ halt_box_ok sw_f2 ex_halt_prog = true /\
+   to_prog ex_halt_prog (0, 0) <> None /\
+   bw_skips_justified sw_f2 ex_halt_prog 40 (halt_configs sw_f2) = true /\
+   cant_halt_sw sw_f2 ex_halt_prog 40 = Ok (BwRefuted 12)) /\
+  cant_blank_sw sw_f2 ex_blank_prog 40 = Ok (BwRefuted 28) /\
+  (bw_no_blank_skip sw_f2 ex_spin_prog 40 zero_reflexive_configs = false /\
+   bw_skips_justified sw_f2 ex_spin_prog 40 zero_reflexive_configs = true /\
+   cant_spin_out_sw sw_f2 ex_spin_prog 40 = Ok (BwRefuted 10)).
+Proof.
+  split; [|split].
+  - destruct ex_halt_guards as (A & B & C & _ & D & E). repeat split; assumption.
+  - apply ex_blank_guards.
+  - apply ex_spin_guards.
+Qed.
+Print Assumptions C04_guards_nonvacuous.
+
+(** each static guard of the halt theorem is necessary (F1 / F2 / A0 undefined) *)
+Theorem C04_halt_guards_necessary :
+  (halt_box_ok bw_faithful f1_halt_prog = true /\ to_prog f1_halt_prog (0, 0) <> None /\
+   bw_skips_justified bw_faithful f1_halt_prog 30 (halt_configs bw_faithful) = true /\
+   cant_halt_sw bw_faithful f1_halt_prog 30 = Ok (BwRefuted 9) /\
+   halts_at (to_prog f1_halt_prog) init_config 11 (2, 1)) /\
+  (sw_nodrop sw_f2 = true /\ halt_box_ok sw_f2 f2_halt_prog = false /\
+   to_prog f2_halt_prog (0, 0) <> None /\
+   bw_skips_justified sw_f2 f2_halt_prog 3 (halt_configs sw_f2) = true /\
+   cant_halt_sw sw_f2 f2_halt_prog 3 = Ok (BwRefuted 0) /\
+   halts_at (to_prog f2_halt_prog) init_config 1 (1, 0)) /\
+  (let comp := [((0, 1), (1, true, 0))] in
+   sw_nodrop sw_f2 = true /\ halt_box_ok sw_f2 comp = true /\ to_prog comp (0, 0) = None /\
+   bw_skips_justified sw_f2 comp 10 (halt_configs sw_f2) = true /\
+   cant_halt_sw sw_f2 comp 10 = Ok (BwRefuted 1) /\
+   halts_at (to_prog comp) init_config 0 (0, 0)).
+Proof. exact halt_guards_necessary. Qed.
+Print Assumptions C04_halt_guards_necessary.
+
+(** OPEN (not proved, not used): the run guard is never violated, i.e. the
+    [blanks] pruning only ever removes true duplicates.  Evidence: no
+    violation among all 371 293 3x2 and all 371 293 2x3 tables with A0 = 1RB
+    (all three goals, depth 40, 1 458 182 refuted runs, the pruning firing in
+    93 424 of them), nor in 8 random samples of 200 000 tables each (4x2 and
+    3x3 all goals, 5x2 and 2x4 spin-out; 966 195 refuted runs, the pruning
+    firing in 99 372): scripts and outputs in work/c04_guard_stats.  What is missing for
+    a proof: a forward-determinism invariant of the search (a "blank"
+    configuration in state p at depth d says that the machine started in
+    state p on the blank tape reaches the target after exactly d steps
+    inside the known window, which determines the window), including the
+    indefinite blocks of sweeps.  With it, [bw_skips_justified] could be
+    dropped from the halt and spin-out theorems above. *)
+Definition C04_skips_always_justified_stmt : Prop :=
+  forall sw comp depth s,
+    sw_nodrop sw = true ->
+    (cant_halt_sw sw comp depth = Ok (BwRefuted s) ->
+       bw_skips_justified sw comp depth (halt_configs sw) = true) /\
+    (cant_spin_out_sw sw comp depth = Ok (BwRefuted s) ->
+       bw_skips_justified sw comp depth zero_reflexive_configs = true).
